@@ -53,6 +53,8 @@ func init() {
 	})
 	register("C31", "Assertions are stored and returned verbatim per store and model", func(e *Engine, r *Reporter) {
 		ruleAssertionsKeyed(e, r)
+		ruleAssertionsWriteAlwaysPersists(e, r)
+		ruleProtoCopyComplete(e, r, "pkg/storage", "")
 	})
 }
 
@@ -364,6 +366,7 @@ func init() {
 	register("C30", "Expand mirrors the rewrite and the directly assigned users", func(e *Engine, r *Reporter) {
 		ruleExpand(e, r)
 		ruleReadSitesFiltered(e, r, map[string]bool{"expand": true}, 2)
+		ruleMutatingCommandPerRequest(e, r)
 	})
 	describe("C30", meta{
 		Decides:    "resolveUserset dispatches all six rewrite kinds (default fails) to resolvers that build the node kind of the same name, named toObjectRelation(tk); Difference keeps [base, subtract] order end to end and resolveUsersets stores child i at index i; the two leaf readers pass FilterInvalidTuples, collect through a set, and resolveThis sorts users on every path to the leaf; contextual tuples are validated and read through (C18, C04 rules).",
